@@ -100,6 +100,9 @@ func (s *Scope) Invoke(function interface{}, opts ...InvokeOption) (err error) {
 		return newErrInvalidInput(
 			fmt.Sprintf("can't invoke non-function %v (type %v)", function, ftype), nil)
 	}
+	if reflect.ValueOf(function).IsNil() {
+		return newErrInvalidInput(fmt.Sprintf("can't invoke a nil function of type %v", ftype), nil)
+	}
 
 	pl, err := newParamList(ftype, s)
 	if err != nil {
